@@ -80,7 +80,110 @@ def writes_in(fi, selfn: str):
     return out
 
 
+def _closure_for(prog: Program, K: str, start, via_calls):
+    """The functions reached for receiver class K from the nodes `via_calls`
+    through `self.m(..)` / `super().m(..)` calls (virtual dispatch resolved
+    for K), transitively."""
+    seen, todo = [], list(via_calls)
+    while todo and len(seen) < 40:
+        owner, node = todo.pop()
+        selfn = owner.params()[0] if owner.params() else "self"
+        for c in ast.walk(node):
+            if not (isinstance(c, ast.Call) and isinstance(
+                    c.func, ast.Attribute)):
+                continue
+            tgt = None
+            if norm(c.func.value) == selfn:
+                tgt = prog.resolve_method(K, c.func.attr)
+            elif isinstance(c.func.value, ast.Call) and call_name(
+                    c.func.value) == "super" and owner.cls is not None:
+                tgt = prog.resolve_method(K, c.func.attr,
+                                          after=owner.cls.name)
+            if tgt is not None and tgt not in seen and tgt is not start:
+                seen.append(tgt)
+                todo.append((tgt, tgt.node))
+    return seen
+
+
+def check_fast_path(prog: Program, res: Result) -> None:
+    """R-ENANT-FASTPATH: an early `return` of enantiomer() in front of the
+    inversion, guarded by a look at some descriptor slots, is only right for
+    a class whose inversion writes no other slot: the guard cannot know what
+    a slot it never reads contains.  Both sides are resolved per class
+    (hooks overridden in a subclass change the answer)."""
+    res.rule("R-ENANT-FASTPATH", "a guarded early return of enantiomer() in "
+             "front of the inversion reads (through the hooks it calls, "
+             "resolved for the class) every descriptor slot the inversion of "
+             "that class writes")
+    n = 0
+    for K in ("StereoMolGraph", "StereoCondensedReactionGraph"):
+        chain = chain_of(prog, K, "enantiomer")
+        for fi in chain:
+            selfn = fi.params()[0]
+            for st in fi.node.body:
+                if not (isinstance(st, ast.If) and any(isinstance(
+                        x, ast.Return) for b in st.body for x in ast.walk(b))):
+                    continue
+                after = fi.node.body[fi.node.body.index(st) + 1:]
+                if not after:
+                    continue
+                # slots the guard looks at
+                g_funcs = _closure_for(prog, K, fi, [(fi, st.test)])
+                G = set()
+                for owner, node in [(fi, st.test)] + [(g, g.node)
+                                                      for g in g_funcs]:
+                    sn = owner.params()[0] if owner.params() else "self"
+                    for a in ast.walk(node):
+                        if isinstance(a, ast.Attribute) and norm(
+                                a.value) == sn:
+                            G |= {s_ for s_, names in READS.items()
+                                  if a.attr in names}
+                if not G:
+                    continue        # not a look at descriptors
+                # slots the skipped part writes (hooks resolved for K)
+                class _Rest:        # the statements behind the guard
+                    pass
+                W = set()
+                mod = ast.Module(body=list(after), type_ignores=[])
+                w_funcs = _closure_for(prog, K, fi, [(fi, mod)])
+                from ..core import FuncInfo
+                for owner, node in [(fi, mod)] + [(w, w.node)
+                                                  for w in w_funcs]:
+                    sn = owner.params()[0] if owner.params() else "self"
+                    tmp = FuncInfo(owner.qual, owner.module, node, owner.cls) \
+                        if node is mod else owner
+                    for slot, _v, _n, recv in writes_in(tmp, sn):
+                        if recv != sn:
+                            W.add(slot)
+                # a later function of the chain (the subclass part that runs
+                # after super().enantiomer() returned) still runs: its
+                # writes are not skipped
+                later = chain[:chain.index(fi)]
+                for lf in later:
+                    for slot, _v, _n, recv in writes_in(lf, lf.params()[0]):
+                        W.discard(slot) if recv != lf.params()[0] else None
+                n += 1
+                inst = f"{SHORT[K]}.enantiomer: fast path `{norm(st.test, 60)}`"
+                missing = sorted(W - G)
+                if not missing:
+                    res.ok("R-ENANT-FASTPATH", inst, fi.loc(st),
+                           f"reads {sorted(G)}, skips writes of {sorted(W)}")
+                else:
+                    res.bad("R-ENANT-FASTPATH",
+                            f"{K}.enantiomer fast path {norm(st.test, 50)}",
+                            fi.loc(st), f"{inst} in {fi.short} returns the "
+                            f"plain copy after looking at {sorted(G)} only; "
+                            f"for a {K} the skipped inversion also writes "
+                            f"{missing}: a graph whose only chiral "
+                            "descriptors sit there is returned unmirrored",
+                            instance=inst, context=["<decided>"])
+    if n == 0:
+        res.ok("R-ENANT-FASTPATH", "enantiomer() has no guarded early return",
+               chain_of(prog, "StereoMolGraph", "enantiomer")[0].loc())
+
+
 def run(prog: Program, res: Result, tier: str) -> None:
+    check_fast_path(prog, res)
     res.rule("R-SLOT-COVER[enantiomer]", "for class K, every descriptor-"
              "bearing slot of K is written in the enantiomer() chain with a "
              "value that is data-dependent on a .invert() call and on a read "
